@@ -35,6 +35,8 @@ fn program(rng: &mut Rng) -> String {
     for (_, body) in knots.iter() {
         s.push_str(body);
     }
+    // reached only by a host jump: one line, then the story runs out of content (an error of that very continue)
+    s.push_str("=== kout ===\nleaving now\n");
     s
 }
 
@@ -81,6 +83,19 @@ fn run_case(c: &Compiled, handler: bool, version_warning: bool, rng: &mut Rng, m
         }};
     }
     for _ in 0..max_ops {
+        // a save + load of the same instance between continues: what is pending (the construction warning before the
+        // first continue, the lists a handler-less host has not read yet) must neither be lost nor delivered again
+        if rng.chance(1, 10) && !p.story.has_error() {
+            let before = (p.story.get_current_warnings().to_vec(), p.story.get_current_errors().to_vec());
+            let r = p.apply(&Op::SaveLoadSame);
+            ops.push(r.op.clone());
+            if r.res.is_ok() {
+                let after = (p.story.get_current_warnings().to_vec(), p.story.get_current_errors().to_vec());
+                if before != after || !r.events.is_empty() {
+                    fail!("messages/changed-by-save-load", json!({"before": before, "after": after, "events": r.events, "pending_version_warning": pending_version}));
+                }
+            }
+        }
         if p.story.can_continue() {
             // a third of the continues are sliced by the virtual clock; messages of all slices belong to the line
             let mut r = if rng.chance(1, 3) {
@@ -120,6 +135,7 @@ fn run_case(c: &Compiled, handler: bool, version_warning: bool, rng: &mut Rng, m
             let mut want_e: Vec<&str> = Vec::new();
             match announced.as_deref() {
                 Some("entering err") => want_e.push("Division by zero"),
+                Some("jumped to kout") => want_e.push("ran out of content"),
                 Some("entering both") => {
                     want_e.push("Modulo by zero");
                     want_w.push("missing_both".into());
@@ -206,6 +222,15 @@ fn run_case(c: &Compiled, handler: bool, version_warning: bool, rng: &mut Rng, m
             let n = p.story.get_current_choices().len();
             if n == 0 {
                 break;
+            }
+            if rng.chance(1, 9) {
+                // the host jumps (with a call-stack reset) to a knot that prints one line and runs out of content
+                let r = p.apply(&Op::ChoosePath("kout".into(), true));
+                ops.push(r.op.clone());
+                if r.res.is_ok() {
+                    announced = Some("jumped to kout".to_string());
+                    continue;
+                }
             }
             let r = p.apply(&Op::Choose(rng.below(n)));
             ops.push(r.op.clone());
